@@ -393,6 +393,40 @@ func init() {
 		}
 		return e.tf.PrefixOf(p.Term(e.tf), s.Term(e.tf))
 	}
+	stubs["strings.TrimPrefix"] = func(e *Exec, fr *Frame, fn *ssa.Function, a []Value) Value {
+		s, p := a[0].(StrV), a[1].(StrV)
+		if s.IsCh && p.IsCh {
+			if len(p.Chars) > len(s.Chars) {
+				return s
+			}
+			if e.decide(strEq(e.tf, StrV{Chars: s.Chars[:len(p.Chars)], IsCh: true}, p)) {
+				return StrV{Chars: s.Chars[len(p.Chars):], IsCh: true}
+			}
+			return s
+		}
+		st, pt := s.Term(e.tf), p.Term(e.tf)
+		if e.decide(e.tf.PrefixOf(pt, st)) {
+			return StrV{T: e.tf.Substr(st, e.tf.StrLen(pt), e.tf.Sub(e.tf.StrLen(st), e.tf.StrLen(pt)))}
+		}
+		return s
+	}
+	stubs["strings.TrimSuffix"] = func(e *Exec, fr *Frame, fn *ssa.Function, a []Value) Value {
+		s, p := a[0].(StrV), a[1].(StrV)
+		if s.IsCh && p.IsCh {
+			if len(p.Chars) > len(s.Chars) {
+				return s
+			}
+			if e.decide(strEq(e.tf, StrV{Chars: s.Chars[len(s.Chars)-len(p.Chars):], IsCh: true}, p)) {
+				return StrV{Chars: s.Chars[:len(s.Chars)-len(p.Chars)], IsCh: true}
+			}
+			return s
+		}
+		st, pt := s.Term(e.tf), p.Term(e.tf)
+		if e.decide(e.tf.SuffixOf(pt, st)) {
+			return StrV{T: e.tf.Substr(st, e.tf.Int(0), e.tf.Sub(e.tf.StrLen(st), e.tf.StrLen(pt)))}
+		}
+		return s
+	}
 	stubs["strings.HasSuffix"] = func(e *Exec, fr *Frame, fn *ssa.Function, a []Value) Value {
 		s, p := a[0].(StrV), a[1].(StrV)
 		if s.IsCh && p.IsCh {
